@@ -59,6 +59,14 @@ def case_strategy(profile):
     )
     jitter = st.lists(st.sampled_from([0.0, 0.0, simnet.EPS, 0.0005, 0.003]), min_size=1, max_size=5)
     extra = profile.get("cfg_extra")
+    if profile.get("cfg_extra_fn") == "c09":
+        extra = {"idle_timeout": st.sampled_from([60.0, 60.0, 4.0, 2.0])}
+    elif profile.get("cfg_extra_fn") == "c13":
+        extra = {"leaf": st.sampled_from(["ed25519", "rsa", "chain2", "chain3", "chain3"]), "retry": st.sampled_from([False, False, True])}
+    if profile.get("c_keylog"):
+        extra = dict(extra or {}, c_keylog=st.just(True))
+    if profile.get("jitter0"):
+        jitter = st.just([0.0])
     if extra:
         cfg = st.tuples(cfg, st.fixed_dictionaries(extra)).map(lambda t: dict(t[0], **t[1]))
     return st.fixed_dictionaries({"cfg": cfg, "script": script, "fates": fates, "jitter": jitter, "adv_end": st.just(adv), "fair": st.just(profile.get("fair", 20.0))})
@@ -180,6 +188,16 @@ class C01Monitor(Monitor):
                 return
 
     def classify_stall(self, sim):
+        # a server whose peer moved to an address it could not validate (challenge or response lost) is limited to three
+        # times what it received from that address; with a quiet client nothing can ever be sent again
+        srv = sim.ep["s"].conn
+        if self.rebinds and srv is not None:
+            try:
+                path = srv._network_paths[0]
+                if not path.is_validated and path.bytes_received * 3 - path.bytes_sent < 64:
+                    return "-server-amplification-blocked-after-rebind"
+            except Exception:
+                pass
         tags = []
         if sim.stats["op:key_update"]:
             tags.append("key-update")
@@ -222,12 +240,357 @@ class TimerMonitor(Monitor):
                 raise simnet.SimStop()
 
 
+
+class C09Monitor(Monitor):
+    """closing always terminates: once, within 3 PTO of starting to close or at the idle deadline; only closing packets in between."""
+
+    CLOSE_FRAMES = {"connection_close", "application_close", "padding"}
+
+    def start(self, sim):
+        self.closing = {}  # x -> (t0, pto, how)
+        self.last_rx = {}
+        self.idle = {}
+        self.max_jitter = max(sim.jitter) if sim.jitter else 0.0
+        self.closed_by = set()
+        self.nontrivial = False
+        self.first_activity = {}
+        self.first_tx_after_rx = {}
+        self.mark = {}
+
+    def on_api(self, sim, x, name, a):
+        if name == "close":
+            self.closed_by.add(x)
+
+    def before_send(self, sim, x, now):
+        if sim.wire is not None:
+            self.mark[x] = len(sim.wire.history[x])
+
+    def _state(self, conn):
+        st = getattr(conn, "_state", None)
+        return getattr(st, "name", None)
+
+    def on_datagram_in(self, sim, x, data, addr, now):
+        self.last_rx[x] = now
+        self.first_tx_after_rx.pop(x, None)
+        self.first_activity.setdefault(x, now)
+
+    def after_cycle(self, sim, x, now, produced):
+        ep = sim.ep[x]
+        c = ep.conn
+        self.first_activity.setdefault(x, now)
+        if c is None or ep.terminated is not None:
+            return
+        if x not in self.closing and self._state(c) in ("CLOSING", "DRAINING"):
+            pto = c._loss.get_probe_timeout()
+            how = "local" if x in self.closed_by else ("peer" if self._state(c) == "DRAINING" else "error")
+            self.closing[x] = (now, pto, how)
+            sim.stats["c09:closing-" + how] += 1
+            # the flight that starts the closing period: only closing packets (an ACK may ride along)
+            if sim.wire is not None:
+                for t, views, _ in sim.wire.history[x][self.mark.get(x, 0) :]:
+                    for v in views:
+                        extra = [n for n in v.names() if n not in self.CLOSE_FRAMES and n != "ack"] if v.frames is not None else []
+                        if extra:
+                            sim.violation("non-closing-packet-sent-while-closing", "%s sent %s frames in the flight that starts its closing period (t=%.4f)" % (x, extra, now))
+                            raise simnet.SimStop()
+            if sum(s.ack_eliciting_in_flight for s in c._loss.spaces) or not ep.handshake_complete:
+                self.nontrivial = True
+        if x not in self.closing and sim.blackout is not None and ep.handshake_complete and x in self.last_rx:
+            idle_cfg = min(sim.ccfg.idle_timeout, sim.scfg.idle_timeout)
+            base = max(self.last_rx[x], self.first_tx_after_rx.get(x, 0.0))
+            limit = base + max(idle_cfg, 3 * c._loss.get_probe_timeout()) + self.max_jitter + 0.01
+            if now > limit + 1.0:
+                sim.violation("idle-period-does-not-terminate", "%s: nothing received since t=%.3f (blackout at t=%.3f), negotiated idle timeout %.3f, still no termination at t=%.3f" % (x, self.last_rx[x], sim.blackout, idle_cfg, now))
+                raise simnet.SimStop()
+        if x in self.closing:
+            t0, pto, how = self.closing[x]
+            deadline = t0 + 3 * pto + self.max_jitter + 0.002
+            if now > deadline + 0.5:
+                sim.violation("closing-does-not-terminate", "%s started closing (%s) at t=%.4f with PTO %.4f; no ConnectionTerminated by t=%.4f (limit %.4f)" % (x, how, t0, pto, now, deadline))
+                raise simnet.SimStop()
+
+    def on_datagram_out(self, sim, x, data, addr, now):
+        self.first_tx_after_rx.setdefault(x, now)
+        if x in self.closing and sim.wire is not None:
+            t0 = self.closing[x][0]
+            if now > t0:
+                for v in sim.wire.last(x):
+                    if v.frames is None:
+                        continue
+                    extra = [n for n in v.names() if n not in self.CLOSE_FRAMES]
+                    if extra:
+                        sim.violation("non-closing-packet-sent-while-closing", "%s sent %s frames at t=%.4f after it started closing at t=%.4f" % (x, extra, now, t0))
+                        raise simnet.SimStop()
+
+    def on_event(self, sim, x, e, now):
+        if type(e).__name__ != "ConnectionTerminated":
+            return
+        ep = sim.ep[x]
+        if x in self.closing:
+            t0, pto, how = self.closing[x]
+            deadline = t0 + 3 * pto + self.max_jitter + 0.002
+            if now > deadline:
+                sim.violation("termination-later-than-three-pto", "%s started closing (%s) at t=%.4f, PTO %.4f, reported termination at t=%.4f > %.4f" % (x, how, t0, pto, now, deadline))
+                raise simnet.SimStop()
+        else:
+            # not preceded by a closing period: idle timeout (or a termination the harness did not see coming)
+            idle_cfg = min(sim.ccfg.idle_timeout, sim.scfg.idle_timeout)
+            last = self.last_rx.get(x)
+            if getattr(e, "reason_phrase", "") == "Idle timeout" and last is not None:
+                self.nontrivial = True
+                sim.stats["c09:idle-termination"] += 1
+                first = self.first_activity.get(x, 0.0)
+                if now < first + idle_cfg - 1e-9:
+                    sim.violation("idle-termination-too-early", "%s reported idle timeout at t=%.4f, it only became active at t=%.4f, negotiated idle timeout %.3f" % (x, now, first, idle_cfg))
+                    raise simnet.SimStop()
+
+    def finish(self, sim):
+        for x, (t0, pto, how) in self.closing.items():
+            ep = sim.ep[x]
+            deadline = t0 + 3 * pto + self.max_jitter + 0.002
+            if ep.terminated is None and sim.now > deadline and not sim.inconclusive:
+                sim.violation("closing-does-not-terminate", "%s started closing (%s) at t=%.4f with PTO %.4f and never reported termination (run ended at t=%.4f)" % (x, how, t0, pto, sim.now))
+                return
+        # idle: after a blackout each started endpoint must have terminated by last_rx + max(idle, 3 PTO) (+ slack)
+        if sim.blackout is not None and not sim.inconclusive:
+            idle_cfg = min(sim.ccfg.idle_timeout, sim.scfg.idle_timeout)
+            for x, ep in sim.ep.items():
+                if ep.conn is None or not ep.started or ep.terminated is not None or x in self.closing:
+                    continue
+                last = max(self.last_rx.get(x, 0.0), 0.0)
+                limit = last + max(idle_cfg, 3 * ep.conn._loss.get_probe_timeout() * 1.0) + 1.0
+                if sim.now > limit + 2.0 and ep.handshake_complete:
+                    sim.violation("idle-period-does-not-terminate", "%s: nothing received since t=%.3f (blackout), idle timeout %.3f, still not terminated at t=%.3f" % (x, last, idle_cfg, sim.now))
+                    return
+
+
+class C12Monitor(Monitor):
+    """ACK frames name only delivered packets; ack-eliciting highest packets are acknowledged in time."""
+
+    def start(self, sim):
+        self.sent_map = {}  # datagram bytes id -> list of (space, pn, ack_eliciting)
+        self.delivered = {"c": collections.defaultdict(set), "s": collections.defaultdict(set)}
+        self.highest = {"c": collections.defaultdict(lambda: -1), "s": collections.defaultdict(lambda: -1)}
+        self.oblig = {"c": [], "s": []}  # (space, pn, deadline or None)
+        self.max_ack_delay = 0.025
+        self.nontrivial = False
+        self.gaps = 0
+        self.closing = set()
+
+    def on_api(self, sim, x, name, a):
+        if name == "close":
+            self.closing.add(x)
+
+    def on_datagram_out(self, sim, x, data, addr, now):
+        views = sim.wire.last(x)
+        self.sent_map[data] = [(v.space, v.pn, v.ack_eliciting) for v in views if v.pn is not None]
+        c = sim.ep[x].conn
+        if getattr(getattr(c, "_state", None), "name", "") in ("CLOSING", "DRAINING"):
+            self.closing.add(x)
+        for v in views:
+            if v.frames is None:
+                continue
+            for f in v.frames:
+                if f["name"] != "ack":
+                    continue
+                acked = f.get("acked") or []
+                have = self.delivered[x][v.space]
+                for lo, hi in [tuple(sorted(r)) for r in acked]:
+                    if hi - lo > 100000:
+                        sim.violation("ack-names-packets-never-received", "%s acknowledges the range %d..%d in the %s space" % (x, lo, hi, v.space))
+                        raise simnet.SimStop()
+                    for n in range(lo, hi + 1):
+                        if n not in have:
+                            sim.violation("ack-names-packets-never-received", "%s acknowledges packet %d in the %s space at t=%.4f but that packet was never delivered to it (delivered: %s)" % (x, n, v.space, now, sorted(have)[-12:]))
+                            raise simnet.SimStop()
+                if len(acked) > 1:
+                    self.nontrivial = True
+                # discharge obligations covered by this ack
+                rem = []
+                for sp, pn, dl in self.oblig[x]:
+                    if sp == v.space and any(min(r) <= pn <= max(r) for r in acked):
+                        if dl is not None and now > dl:
+                            sim.violation("ack-later-than-max-ack-delay", "%s acknowledged packet %d (%s space) at t=%.4f, deadline %.4f" % (x, pn, sp, now, dl))
+                            raise simnet.SimStop()
+                        continue
+                    rem.append((sp, pn, dl))
+                self.oblig[x] = rem
+            # Initial / Handshake: the next transmission in that space must acknowledge
+            if v.space in ("initial", "handshake"):
+                pend = [(sp, pn, dl) for sp, pn, dl in self.oblig[x] if sp == v.space]
+                if pend:
+                    sim.violation("handshake-space-packet-not-acknowledged-by-next-transmission", "%s sent a %s packet at t=%.4f that does not acknowledge packet %r received earlier" % (x, v.space, now, [p[1] for p in pend]))
+                    raise simnet.SimStop()
+
+    def on_datagram_in(self, sim, x, data, addr, now):
+        ep = sim.ep[x]
+        for sp, pn, ae in self.sent_map.get(data, []):
+            self.delivered[x][sp].add(pn)
+            if pn > self.highest[x][sp]:
+                if pn > self.highest[x][sp] + 1:
+                    self.gaps += 1
+                self.highest[x][sp] = pn
+                if ae and x not in self.closing and ep.conn is not None:
+                    if sp == "app":
+                        if ep.handshake_complete and self._can_read_app(ep):
+                            self.oblig[x].append((sp, pn, now + self.max_ack_delay + 0.002))
+                    elif not self._space_discarded(ep, sp):
+                        self.oblig[x].append((sp, pn, None))
+
+    def _can_read_app(self, ep):
+        return True
+
+    def _space_discarded(self, ep, sp):
+        from aioquic import tls
+
+        epoch = tls.Epoch.INITIAL if sp == "initial" else tls.Epoch.HANDSHAKE
+        try:
+            return ep.conn._spaces[epoch].discarded or not ep.conn._cryptos[epoch].recv.is_valid() if sp == "handshake" else ep.conn._spaces[epoch].discarded
+        except Exception:
+            return True
+
+    def after_cycle(self, sim, x, now, produced):
+        ep = sim.ep[x]
+        if ep.terminated is not None or x in self.closing:
+            self.oblig[x] = []
+            return
+        rem = []
+        for sp, pn, dl in self.oblig[x]:
+            if sp != "app" and self._space_discarded(ep, sp):
+                continue
+            if dl is not None and now > dl + 0.001:
+                sim.violation("ack-later-than-max-ack-delay", "%s has not acknowledged ack-eliciting packet %d (app space, highest so far) by t=%.4f; it arrived at t=%.4f and the advertised max_ack_delay is 25 ms" % (x, pn, now, dl - self.max_ack_delay - 0.002))
+                raise simnet.SimStop()
+            rem.append((sp, pn, dl))
+        self.oblig[x] = rem
+
+
+class C13Monitor(Monitor):
+    """datagram size, Initial padding, anti-amplification."""
+
+    def start(self, sim):
+        self.sent_to = collections.Counter()
+        self.recv_from = collections.Counter()
+        self.validated = set()
+        self.challenges = collections.defaultdict(set)  # addr -> challenge data sent to it
+        self.sent_map = {}
+        self.nontrivial = False
+        self.server_flight = 0
+
+    def on_api(self, sim, x, name, a):
+        if x == "s" and name == "created" and a.get("retry"):
+            self.validated.add(a["addr"])
+        if name == "rebind":
+            self.nontrivial = True
+
+    def on_datagram_out(self, sim, x, data, addr, now):
+        ep = sim.ep[x]
+        mds = (sim.ccfg if x == "c" else sim.scfg).max_datagram_size
+        if len(data) > mds:
+            sim.violation("datagram-larger-than-max-datagram-size", "%s emitted a datagram of %d bytes, max_datagram_size is %d" % (x, len(data), mds))
+            raise simnet.SimStop()
+        views = sim.wire.last(x)
+        self.sent_map[data] = views
+        for v in views:
+            if v.ptype == R.PT_INITIAL:
+                if x == "c" and len(data) < 1200:
+                    sim.violation("client-initial-datagram-shorter-than-1200", "client datagram of %d bytes contains an Initial packet (pn %r, frames %s) at t=%.4f" % (len(data), v.pn, v.names() if v.frames is not None else "?", now))
+                    raise simnet.SimStop()
+                if x == "s" and len(data) < 1200 and v.ack_eliciting:
+                    sim.violation("server-ack-eliciting-initial-datagram-shorter-than-1200", "server datagram of %d bytes contains an ack-eliciting Initial packet (frames %s)" % (len(data), v.names() if v.frames is not None else "?"))
+                    raise simnet.SimStop()
+        if x == "s":
+            for v in views:
+                if v.frames:
+                    for f in v.frames:
+                        if f["name"] == "path_challenge":
+                            self.challenges[addr].add(bytes(f["data"]))
+            self.sent_to[addr] += len(data)
+            if addr not in self.validated:
+                if self.sent_to[addr] > 3 * self.recv_from[addr]:
+                    sim.violation("anti-amplification-limit-exceeded", "server has sent %d bytes to %r which is not validated, after receiving %d bytes from it (t=%.4f)" % (self.sent_to[addr], addr, self.recv_from[addr], now))
+                    raise simnet.SimStop()
+                if self.sent_to[addr] > 3600:
+                    self.nontrivial = True
+
+    def on_datagram_in(self, sim, x, data, addr, now):
+        if x != "s":
+            return
+        self.recv_from[addr] += len(data)
+        views = self.sent_map.get(data)
+        if views is None and sim.wire is not None:
+            views = sim.wire.decode("c", data, record=False)
+        for v in views or []:
+            if v.ptype == R.PT_HANDSHAKE:
+                self.validated.add(addr)
+            if v.frames:
+                for f in v.frames:
+                    if f["name"] == "path_response":
+                        # RFC 9000 8.2.3: a PATH_RESPONSE received on any path validates the path the challenge was sent on
+                        for a2, ch in self.challenges.items():
+                            if bytes(f["data"]) in ch:
+                                self.validated.add(a2)
+
+
+class C08WireMonitor(Monitor):
+    """in-flight bytes put on the wire by one datagrams_to_send call <= window left (+ one probe datagram)."""
+
+    NOT_IN_FLIGHT = {"ack", "connection_close", "application_close"}
+
+    def start(self, sim):
+        self.before = {}
+        self.nontrivial = False
+        self.calls = 0
+
+    def before_send(self, sim, x, now):
+        c = sim.ep[x].conn
+        self.before[x] = (c._loss.congestion_window, c._loss.bytes_in_flight, bool(c._probe_pending), c._max_datagram_size)
+        self.out = 0
+
+    def on_datagram_out(self, sim, x, data, addr, now):
+        for v in sim.wire.last(x):
+            if v.frames is None:
+                self.out += v.size
+            elif any(n not in self.NOT_IN_FLIGHT for n in v.names()):
+                self.out += v.size
+
+    def after_cycle(self, sim, x, now, produced):
+        if x not in self.before:
+            return
+        cwnd, bif, probe, mds = self.before.pop(x)
+        self.calls += 1
+        if bif > cwnd / 2:
+            self.nontrivial = True
+            sim.stats["c08:send-while-window-half-full"] += 1
+        allowed = max(0, cwnd - bif)
+        if probe:
+            allowed = max(allowed, mds)
+        if self.out > allowed:
+            sim.violation(
+                "in-flight-bytes-exceed-congestion-window",
+                "%s put %d in-flight bytes on the wire in one datagrams_to_send() call at t=%.4f with cwnd=%d, bytes_in_flight=%d before the call (probe pending: %s)" % (x, self.out, now, cwnd, bif, probe),
+            )
+            raise simnet.SimStop()
+        c = sim.ep[x].conn
+        if c._loss.bytes_in_flight < 0:
+            sim.violation("bytes-in-flight-negative", "%s bytes_in_flight=%d" % (x, c._loss.bytes_in_flight))
+            raise simnet.SimStop()
+        tracked = sum(p.sent_bytes for sp in c._loss.spaces for p in sp.sent_packets.values() if p.in_flight)
+        if tracked != c._loss.bytes_in_flight:
+            sim.violation("bytes-in-flight-mismatch", "%s bytes_in_flight=%d, in-flight packets still tracked total %d at t=%.4f" % (x, c._loss.bytes_in_flight, tracked, now))
+            raise simnet.SimStop()
+
+
 # =============================================================================== tasks
 
 
 PROFILES = {
     "C01": {"adv_end": 3.0, "fair": 20.0, "rebind": True, "dup": True},
     "C01-norebind": {"adv_end": 3.0, "fair": 20.0, "rebind": False, "dup": True},
+    "C09": {"c_keylog": True, "adv_end": 3.0, "fair": 12.0, "rebind": False, "dup": True, "close": True, "cfg_extra_fn": "c09"},
+    "C12": {"c_keylog": True, "adv_end": 3.0, "fair": 5.0, "rebind": False, "dup": True, "key_update": False, "change_cid": True, "jitter0": True},
+    "C13": {"c_keylog": True, "adv_end": 3.0, "fair": 6.0, "rebind": True, "dup": True, "cfg_extra_fn": "c13", "mds": [1200, 1280, 1350, 1452]},
+    "C08": {"c_keylog": True, "adv_end": 3.0, "fair": 8.0, "rebind": False, "dup": True, "big": True, "key_update": False},
 }
 
 
@@ -239,12 +602,20 @@ def run_case(ctx, prop, case, observe=False):
 
 
 def needs_wire(prop):
-    return prop in ("C08", "C12", "C13")
+    return prop in ("C08", "C09", "C12", "C13")
 
 
 def monitors_for(prop):
     if prop == "C01":
         return [C01Monitor(), TimerMonitor()]
+    if prop == "C09":
+        return [C09Monitor(), TimerMonitor()]
+    if prop == "C12":
+        return [C12Monitor()]
+    if prop == "C13":
+        return [C13Monitor()]
+    if prop == "C08":
+        return [C08WireMonitor()]
     raise KeyError(prop)
 
 
@@ -270,7 +641,10 @@ def sim_task(ctx, prop, profile_name, examples, shard):
         if case["cfg"]["client_version"] == V2:
             classes.append("cfg:v2")
         classes.append("cfg:" + case["cfg"]["cc"])
-        nt = c01_nontrivial(sim) if prop == "C01" else True
+        nt = c01_nontrivial(sim) if prop == "C01" else bool(getattr(sim.monitors[0], "nontrivial", True))
+        for k in sim.stats:
+            if k.startswith(("c09:", "c08:", "c13:", "c12:")):
+                classes.append(k)
         ctx.case(sim.seed(), nontrivial=nt, classes=classes)
         if ctx.want_sample():
             ctx.sample({"cfg": case["cfg"], "script": case["script"][:6], "fates": case["fates"][:8], "events": dict(list(sim.stats.items())[:12])})
@@ -285,6 +659,13 @@ def plan_for(prop, tier, seed):
         n = 14 if q else 16
         for s in range(n):
             t.append(("sim-c01-%d" % s, {"fn": "sim", "profile": "C01" if s % 2 == 0 else "C01-norebind", "examples": 220 if q else 5000, "shard": s}))
+    if prop in ("C09", "C12", "C13"):
+        n = 14 if q else 16
+        for s in range(n):
+            t.append(("sim-%s-%d" % (prop.lower(), s), {"fn": "sim", "profile": prop, "examples": 160 if q else 4000, "shard": s}))
+    if prop == "C08":
+        for s in range(6 if q else 8):
+            t.append(("wire-c08-%d" % s, {"fn": "sim", "profile": "C08", "examples": 100 if q else 2500, "shard": s}))
     return t
 
 
